@@ -737,6 +737,9 @@ func selectClasses(q mQuery) []string {
 	fns := map[string]map[string]bool{}
 	n := map[string]int{}
 	for _, it := range q.Items {
+		if it.Expr != nil {
+			continue // see exprClasses
+		}
 		if fns[it.Field] == nil {
 			fns[it.Field] = map[string]bool{}
 		}
@@ -746,6 +749,9 @@ func selectClasses(q mQuery) []string {
 	var out []string
 	seenItem := map[string]bool{}
 	for _, it := range q.Items {
+		if it.Expr != nil {
+			continue
+		}
 		k := it.Field + "/" + it.Fn
 		if seenItem[k] {
 			out = append(out, "select:same-field-and-function-twice-under-different-names")
